@@ -1002,6 +1002,7 @@ func streamBHist(c *Ctx) {
 		_, want := safeExport(fresh)
 		if want != fout {
 			fail("C14", "the final export differs from the export of a fresh builder fed only the accepted appends")
+			fail("C07", "after this history the exported square is not the specified layout of the accepted appends (= what a fresh builder / Construct produces, which the BUILDER stream compares with the executable Spec)")
 		}
 		if sawRefusal || exportBetween {
 			c.nontrivial(desc)
